@@ -91,6 +91,66 @@ func checkC09(p *Prog, r *Report) {
 		}
 	}
 	rRoot.AtLeast(2, "root fields")
+	/* Left unset, nothing is served: the empty default of the flag must
+	arrive as the empty string.  filepath.Abs/Clean/Join make the working
+	directory (or ".") of it. */
+	if hnew := p.Func(hsrvPkg, "", "New"); nil != hnew {
+		for _, st := range p.storesToField(fdir) {
+			pa, isParam := st.Val.(*ssa.Parameter)
+			if !isParam || st.Parent() != hnew {
+				continue
+			}
+			k := paramIndex(hnew, pa)
+			for _, fn := range p.Funcs() {
+				eachInstr(fn, func(i ssa.Instruction) {
+					call, ok := i.(*ssa.Call)
+					if !ok || call.Common().StaticCallee() != hnew || k >= len(call.Common().Args) {
+						return
+					}
+					c := fnName(fn) + "→hsrv.New(fdir):unset-stays-empty"
+					arg := call.Common().Args[k]
+					if "" != flagNameOf(arg) {
+						rRoot.OK(c, posOf(call), "the flag's value itself")
+						return
+					}
+					for _, x := range valueRoots(arg, nil) {
+						if "call" == x.Kind && (strings.HasPrefix(x.Callee, "path/filepath.") || strings.HasPrefix(x.Callee, "path.") || "os.Getwd" == x.Callee) {
+							/* Done only when something was given? */
+							guarded := false
+							if ci, isInstr := x.V.(ssa.Instruction); isInstr {
+								eachInstr(ci.Parent(), func(j ssa.Instruction) {
+									ifi, isIf := j.(*ssa.If)
+									if !isIf || guarded {
+										return
+									}
+									dc := decodeCond(ifi.Cond)
+									if nil == dc.Y {
+										return
+									}
+									if sv, isStr := constString(dc.Y); !isStr || "" != sv {
+										if sv, isStr = constString(dc.X); !isStr || "" != sv {
+											return
+										}
+									}
+									ne := 1 /* the "differs from empty" edge */
+									if !dc.Eq {
+										ne = 0
+									}
+									guarded = edgeDominates(ifi, ne, ci)
+								})
+							}
+							if guarded {
+								continue
+							}
+							rRoot.Bad(c, posOf(call), "the static files directory handed to the server is the result of %s: of an unset (empty) flag that makes a directory, so files are served although none was asked for", x.Callee)
+							return
+						}
+					}
+					rRoot.OK(c, posOf(call), "not rewritten by a path function")
+				})
+			}
+		}
+	}
 
 	checkRoot := func(c string, pos token.Pos, v ssa.Value, want *types.Var, what string) {
 		rs := valueRoots(v, pathThrough)
